@@ -305,9 +305,19 @@ func (g *protoGen) program() []drive.WOp {
 			g.pendFld = false
 		}
 	}
-	// close containers most of the time, then the final Finish
-	if r.Chance(9, 10) {
-		for len(g.stack) > 0 {
+	// close containers most of the time (sometimes all but the outermost one or two: Finish inside a container
+	// is refused, and what was written so far must then not count as a finished stream), then the final Finish
+	remain := len(g.stack)
+	switch x := r.Intn(10); {
+	case x < 7:
+		remain = 0
+	case x == 7:
+		remain = 1
+	case x == 8:
+		remain = r.Range(0, 2)
+	}
+	if remain < len(g.stack) || remain == 0 {
+		for len(g.stack) > remain {
 			if g.inStruct() && g.pendFld {
 				ops = append(ops, g.scalar())
 				g.pendFld = false
